@@ -25,11 +25,25 @@ theorem lookupFactor_eq (L : Layers ν) (n : String) :
 
 theorem evalFactor_python (ops : Ops ν) (L : Layers ν) (f : PFactor) (c : PyCode)
     (hk : f.kind = .python (some c)) :
-    evalFactor ops L f = match eval ops (resolve L (evalEnv L c.aliases)) c.ast with
-      | .ok v => .ok (v, exprVariables c (evalEnv L c.aliases))
-      | .error e => .error (.factorEvaluation e) := by
+    evalFactor ops L f =
+      if reservedHit (evalEnv L c.aliases) then .error (.factorEvaluation (.other "RuntimeError"))
+      else match eval ops (resolve L (evalEnv L c.aliases)) c.ast with
+        | .ok v => .ok (v, exprVariables c (evalEnv L c.aliases))
+        | .error e => .error (.factorEvaluation e) := by
   simp only [evalFactor, hk]
-  cases eval ops (resolve L (evalEnv L c.aliases)) c.ast <;> rfl
+  split
+  · rfl
+  · cases eval ops (resolve L (evalEnv L c.aliases)) c.ast <;> rfl
+
+/-- under the contract (no reserved name in the environment) the reserved-name check is silent -/
+theorem evalFactor_python_ok (ops : Ops ν) (L : Layers ν) (f : PFactor) (c : PyCode)
+    (hk : f.kind = .python (some c)) (hok : AliasOK L c) :
+    evalFactor ops L f =
+      match eval ops (resolve L (evalEnv L c.aliases)) c.ast with
+        | .ok v => .ok (v, exprVariables c (evalEnv L c.aliases))
+        | .error e => .error (.factorEvaluation e) := by
+  rw [evalFactor_python ops L f c hk, reservedHit_false L c hok]
+  rfl
 
 theorem evalFactor_lookup (ops : Ops ν) (L : Layers ν) (f : PFactor) (hk : f.kind = .lookup) :
     evalFactor ops L f = match firstLayer L f.expr with
@@ -82,7 +96,7 @@ theorem evalFactor_congr (ops : Ops ν) (L L' : Layers ν) (f : PFactor)
     | some c =>
       have hok1 : AliasOK L c := by simpa [FactorOK, hk] using hok
       have hok2 : AliasOK L' c := by simpa [FactorOK, hk] using hok'
-      rw [evalFactor_python ops L f c hk, evalFactor_python ops L' f c hk]
+      rw [evalFactor_python_ok ops L f c hk hok1, evalFactor_python_ok ops L' f c hk hok2]
       have : eval ops (resolve L' (evalEnv L' c.aliases)) c.ast
           = eval ops (resolve L (evalEnv L c.aliases)) c.ast := by
         apply eval_congr
@@ -92,27 +106,27 @@ theorem evalFactor_congr (ops : Ops ν) (L L' : Layers ν) (f : PFactor)
       rw [this]
       cases eval ops (resolve L (evalEnv L c.aliases)) c.ast <;> rfl
 
-/-- a factor that reads a key bound nowhere fails -/
+/-- a factor that reads, in strict position, a key bound nowhere fails -/
 theorem evalFactor_unbound (ops : Ops ν) (L : Layers ν) (f : PFactor) (hok : FactorOK L f)
-    (v : String) (hv : v ∈ factorReads f) (hn : lookupAll L v = none) (hf : firstLayer L v = none) :
+    (v : String) (hv : v ∈ factorStrictReads f) (hn : lookupAll L v = none) (hf : firstLayer L v = none) :
     ∃ c, evalFactor ops L f = .error (.factorEvaluation c) := by
   cases hk : f.kind with
   | lookup =>
-    have : v = f.expr := by simpa [factorReads, hk] using hv
+    have : v = f.expr := by simpa [factorStrictReads, hk] using hv
     subst this
     exact ⟨_, by rw [evalFactor_lookup ops L f hk, hf]⟩
-  | literal => simp [factorReads, hk] at hv
+  | literal => simp [factorStrictReads, hk] at hv
   | python oc =>
     cases oc with
-    | none => simp [factorReads, hk] at hv
+    | none => simp [factorStrictReads, hk] at hv
     | some c =>
       have hok1 : AliasOK L c := by simpa [FactorOK, hk] using hok
-      simp only [factorReads, hk, List.mem_map] at hv
+      simp only [factorStrictReads, hk, List.mem_map] at hv
       obtain ⟨id, hid, hidv⟩ := hv
       have hr : resolve L (evalEnv L c.aliases) id = none := by
         rw [resolve_evalEnv L c hok1, hidv, hn]
       obtain ⟨e, he⟩ := eval_unbound ops _ id hr c.ast hid
-      exact ⟨e, by rw [evalFactor_python ops L f c hk, he]⟩
+      exact ⟨e, by rw [evalFactor_python_ok ops L f c hk hok1, he]⟩
 
 /-! ### all factors -/
 theorem evalFactors_congr (ops : Ops ν) (L L' : Layers ν) :
